@@ -242,7 +242,7 @@ class PubSuite(Suite):
     nontrivial_rule = "at least one value fetched and at least one subscriber parked or ended"
 
     def gen_cases(self, rng, tier):
-        n = 3000 if tier == "quick" else 250000
+        n = 3000 if tier == "quick" else 300000
         cases = exhaustive_windows()
         if tier == "quick":
             cases = rng.sample(cases, 700)
@@ -486,7 +486,7 @@ class ThreadSuite(Suite):
     nontrivial_rule = "every case (publisher thread + 1..4 subscriber threads)"
 
     def gen_cases(self, rng, tier):
-        n = 160 if tier == "quick" else 4000
+        n = 160 if tier == "quick" else 10000
         cases = []
         for i in range(n):
             if rng.random() < 0.4:
@@ -495,7 +495,7 @@ class ThreadSuite(Suite):
                 maxlen = rng.randint(1, 5)
                 minlen = rng.randint(1, maxlen)
             modes = "".join(rng.choice("aabr") for _ in range(rng.randint(1, 4)))
-            cases.append({"id": 0, "lines": ["case 0 thr %d %d %d %d %s" % (maxlen, minlen, rng.choice([50, 300, 1500]),
+            cases.append({"id": 0, "lines": ["case 0 thr %d %d %d %d %s" % (maxlen, minlen, rng.choice([50, 300, 1500] if tier == "quick" else [50, 300, 1500, 6000]),
                                                                              rng.choice([1, 1, 3, 6]), modes), "end"]})
         return cases
 
